@@ -141,6 +141,6 @@ def cart_body(ctx, p):
 
 
 LAWS = [
-    given_law("polar", polar_cases(), polar_body, {"quick": 12, "thorough": 60}, shards={"quick": 4, "thorough": 16}),
-    given_law("cartesian", cart_cases(), cart_body, {"quick": 10, "thorough": 50}, shards={"quick": 3, "thorough": 16}),
+    given_law("polar", polar_cases(), polar_body, {"quick": 20, "thorough": 200}, shards={"quick": 6, "thorough": 16}),
+    given_law("cartesian", cart_cases(), cart_body, {"quick": 16, "thorough": 150}, shards={"quick": 5, "thorough": 16}),
 ]
